@@ -110,7 +110,14 @@ def run_C03(tier, seed):
     d = stages.trace_stage("C03", "combination", tb, seed, module="TraceVerify", calls="verify")
     c = stages.apalache_stage("C03", "BatchUnbounded", "C03", 12, cinit="CInit", negative_cinits=("CInitLoopOnly", "CInitFirstChunk"),
                               note="K in 0..10, chunk size in 1..10, the three input lengths, validity and bit-length class of every member are symbolic")
-    return [a, b, d, c]
+    res = [a, b, d, c]
+    if not Q(tier):
+        # the same orchestration for EVERY batch size and chunk size: an inductive invariant discharged by the proof system
+        res.append(stages.tlaps_stage("C03", "BatchProof", "Spec => []C03", negative_edits=[
+            ("IF hi < k THEN pc' = \"chunk\" /\\ res' = res ELSE pc' = \"done\" /\\ res' = \"Ok\"",
+             "IF FALSE THEN pc' = \"chunk\" /\\ res' = res ELSE pc' = \"done\" /\\ res' = \"Ok\""),
+            ("\\/ nt # k \\/ ~Consistent(1, k)\n            THEN", "\\/ nt # k\n            THEN")]))
+    return res
 
 
 def run_C05(tier, seed):
